@@ -22,7 +22,15 @@ func dump(v interface{}) string {
 	return sb.String()
 }
 
+var dumpDepth int
+
 func dumpTo(sb *strings.Builder, v interface{}) {
+	dumpDepth++
+	defer func() { dumpDepth-- }()
+	if dumpDepth > 60 {
+		sb.WriteString("<too-deep-or-cyclic>")
+		return
+	}
 	switch t := v.(type) {
 	case nil:
 		sb.WriteString("null")
